@@ -110,6 +110,8 @@ type client struct {
 	recvsMu sync.RWMutex
 	recvs   map[uint32]*waiter
 
+	// stateMu guards authInfo, lastKeepaliveId, lastPongAt and reconnectCount
+	stateMu         sync.Mutex
 	lastKeepaliveId uint32
 	lastPongAt      time.Time
 	reconnectCount  int
@@ -157,7 +159,15 @@ func (c *client) Dial(ctx context.Context, u string, handshake *protocol.Handsha
 }
 
 func (c *client) AuthInfo() *control.AuthResponse {
+	c.stateMu.Lock()
+	defer c.stateMu.Unlock()
 	return c.authInfo
+}
+
+func (c *client) setAuthInfo(info *control.AuthResponse) {
+	c.stateMu.Lock()
+	c.authInfo = info
+	c.stateMu.Unlock()
 }
 
 func (c *client) closed() bool {
@@ -227,7 +237,7 @@ func (c *client) auth() error {
 		return errors.Wrap(err, "auth unmarshal res")
 	}
 
-	c.authInfo = &info
+	c.setAuthInfo(&info)
 
 	return nil
 }
@@ -298,16 +308,23 @@ func (c *client) reconnecting(conn ClientConn) {
 }
 
 func (c *client) reconnect() error {
+	c.stateMu.Lock()
 	if c.dialOptions.MaxReconnect > 0 {
 		if c.reconnectCount >= c.dialOptions.MaxReconnect {
+			c.stateMu.Unlock()
 			return ErrHitMaxReconnect
 		}
 	}
 
 	c.reconnectCount = c.reconnectCount + 1
+	c.stateMu.Unlock()
 
-	if c.conn != nil {
-		c.conn.Close(errors.New("close old conn for reconnect"))
+	c.RLock()
+	old := c.conn
+	c.RUnlock()
+
+	if old != nil {
+		old.Close(errors.New("close old conn for reconnect"))
 	}
 
 	c.recvsMu.Lock()
@@ -327,10 +344,12 @@ func (c *client) reconnect() error {
 	}
 
 	// heartbeat bookkeeping belongs to the old conn: nothing is outstanding on the new one
+	c.stateMu.Lock()
 	c.lastKeepaliveId = 0
+	c.stateMu.Unlock()
 
 	// server needn't auth
-	if c.authInfo == nil {
+	if c.AuthInfo() == nil {
 		return nil
 	}
 
@@ -344,7 +363,7 @@ func (c *client) reconnect() error {
 
 func (c *client) reconnectDial() error {
 	res, err := c.Do(c.Context, &Request{Cmd: uint32(control.Command_CMD_RECONNECT), Body: &control.ReconnectRequest{
-		SessionId: c.authInfo.SessionId,
+		SessionId: c.AuthInfo().SessionId,
 		Metadata:  c.connectMetadata,
 	}}, RequestTimeout(c.dialOptions.AuthTimeout))
 
@@ -363,18 +382,22 @@ func (c *client) reconnectDial() error {
 		return errors.Wrap(err, "reconnect unmarshal")
 	}
 
+	c.stateMu.Lock()
 	c.authInfo = &info
 	c.reconnectCount = 0
 	c.lastKeepaliveId = 0
+	c.stateMu.Unlock()
 	return nil
 }
 
 func (c *client) isAuthExpired() bool {
-	if c.authInfo == nil {
+	info := c.AuthInfo()
+
+	if info == nil {
 		return true
 	}
 
-	expireAt := time.Unix(c.authInfo.GetExpires()/1000-10, c.authInfo.GetExpires()%1000*int64(time.Millisecond))
+	expireAt := time.Unix(info.GetExpires()/1000-10, info.GetExpires()%1000*int64(time.Millisecond))
 	return time.Since(expireAt) >= 0
 
 }
@@ -506,14 +529,20 @@ func (c *client) keepalive() {
 	t := time.NewTicker(c.dialOptions.Keepalive)
 
 	now := time.Now()
+	c.stateMu.Lock()
 	c.lastPongAt = now
+	c.stateMu.Unlock()
 
 	check := func() error {
-		if c.lastKeepaliveId == 0 {
+		c.stateMu.Lock()
+		id, at := c.lastKeepaliveId, c.lastPongAt
+		c.stateMu.Unlock()
+
+		if id == 0 {
 			return nil
 		}
 
-		if d := time.Since(c.lastPongAt); d > c.dialOptions.KeepaliveTimeout {
+		if d := time.Since(at); d > c.dialOptions.KeepaliveTimeout {
 			return errors.Errorf("keepalive timeout %s", d.String())
 		}
 
@@ -547,7 +576,9 @@ func (c *client) keepalive() {
 			return err
 		}
 
+		c.stateMu.Lock()
 		c.lastKeepaliveId = id
+		c.stateMu.Unlock()
 		verifhook.Point("keepalive:ping", uint64(id))
 
 		return nil
@@ -678,7 +709,9 @@ func (c *client) handlePong(packet *protocol.Packet) {
 		c.onPong(packet)
 	}
 
+	c.stateMu.Lock()
 	c.lastPongAt = time.Now()
+	c.stateMu.Unlock()
 }
 
 func (c *client) register(rid uint32, conn ClientConn) *waiter {
